@@ -173,6 +173,9 @@ pub fn run_all(run: &mut Run, rng: &mut Rng, thorough: bool) {
             }
         }
     }
+    // ---- challenge histories: allocate, then 401/438 challenges that keep or CHANGE the realm; after every step
+    // each request builder must produce a message that verifies under MD5(USERNAME : REALM-in-the-message : password)
+    challenge_histories(run, rng, &env, thorough);
     // ---- TURN over TCP: `TurnClient::send` frames every message with a 2-byte length (RFC 4571)
     tcp_framing(run, rng, &env, thorough);
     // ---- Allocate dialogue (401 challenge, then success) against a scripted reference-crate server
@@ -279,6 +282,63 @@ fn tcp_framing(run: &mut Run, rng: &mut Rng, env: &Env, thorough: bool) {
     }
 }
 
+/// MESSAGE-INTEGRITY of `bytes` under the long-term key derived (by the reference crate) from the USERNAME and
+/// REALM the message itself carries and the account's password
+fn verifies_under_own_realm(bytes: &[u8], password: &str) -> Result<(), String> {
+    let mut m = Message::new();
+    m.raw = bytes.to_vec();
+    m.decode().map_err(|e| e.to_string())?;
+    let user = String::from_utf8(m.get(ATTR_USERNAME).map_err(|e| e.to_string())?).map_err(|e| e.to_string())?;
+    let realm = String::from_utf8(m.get(ATTR_REALM).map_err(|e| e.to_string())?).map_err(|e| e.to_string())?;
+    MessageIntegrity::new_long_term_integrity(user, realm, password.to_string()).check(&mut m).map_err(|e| e.to_string())
+}
+
+fn challenge_histories(run: &mut Run, rng: &mut Rng, env: &Env, thorough: bool) {
+    let c = &env.client;
+    for round in 0..(if thorough { 400 } else { 40 }) {
+        let mut cr = Creds::make(rng);
+        let realm_a = cr.realm.clone();
+        let mk = |rng: &mut Rng, tag: &str| { let n = rng.range(0, 30) as usize; format!("{tag}{}", utf8_of_len(rng, n)) };
+        let realm_b = mk(rng, "B-"); let realm_c = mk(rng, "C-");
+        c.verif_set_auth(&cr.user, &cr.pass, &cr.realm, &cr.nonce);      // = the state a successful allocate leaves
+        // the history of the audit: same realm, realm B, new nonce in B, realm C — then random steps
+        let mut steps: Vec<(String, String)> = vec![(realm_a.clone(), mk(rng, "n1")), (realm_b.clone(), mk(rng, "n2")), (realm_b.clone(), mk(rng, "n3")), (realm_c.clone(), mk(rng, "n4"))];
+        for _ in 0..rng.below(4) { steps.push((rng.pick(&[realm_a.clone(), realm_b.clone(), realm_c.clone(), String::new()]).clone(), mk(rng, "r"))); }
+        if round % 5 == 0 { steps.rotate_left(1); }
+        let all_steps: Vec<(String, String)> = std::iter::once((cr.realm.clone(), cr.nonce.clone())).chain(steps.iter().cloned()).collect();
+        for (si, (realm, nonce)) in all_steps.into_iter().enumerate() {
+            if si > 0 { env.rt.block_on(c.verif_update_nonce(&realm, &nonce)); cr.realm = realm.clone(); cr.nonce = nonce.clone(); }
+            let step_class = if si == 0 { "after-allocate" } else if realm == realm_a { "after-challenge-same-realm" } else { "after-challenge-new-realm" };
+            if c.verif_auth_key() != Some(cr.key()) { run.fail(&format!("codec:turn:challenge-history:stored-key:{step_class}"), &format!("history step {si}"), ""); }
+            let peer = gen_addr(rng);
+            let ch = rng.range(0x4000, 0x7fff) as u16;
+            let built: Vec<(&str, Vec<u8>, [u8; 12], Option<SocketAddr>, u32)> = vec![
+                { let (b, tx) = env.rt.block_on(c.verif_create_permission_packet(peer)).unwrap(); ("perm", b, tx, Some(peer), 0) },
+                { let (b, tx) = env.rt.block_on(c.verif_create_channel_rebind_packet(peer, ch)).unwrap(); ("bind", b, tx, Some(peer), ch as u32) },
+                { let (b, tx) = env.rt.block_on(c.verif_create_refresh_packet()).unwrap(); ("refresh", b, tx, None, 600) },
+                { let (b, tx) = c.verif_create_destroy_packet().unwrap(); ("refresh", b, tx, None, 0) },
+            ];
+            for (kind, b, tx, p, n) in built {
+                let case = case_req(run, kind, &tx, Some(&cr), p, n, &[], &b);
+                if let Err(e) = verifies_under_own_realm(&b, &cr.pass) { run.fail(&format!("codec:turn:challenge-history:{kind}:{step_class}:message-integrity-not-under-realm-in-message"), &case, &e); }
+                let mut m = Message::new(); m.raw = b.clone(); let _ = m.decode();
+                if m.get(ATTR_REALM).ok().as_deref() != Some(cr.realm.as_bytes()) || m.get(ATTR_NONCE).ok().as_deref() != Some(cr.nonce.as_bytes()) {
+                    run.fail(&format!("codec:turn:challenge-history:{kind}:{step_class}:realm-or-nonce-not-the-challenged-one"), &case, ""); }
+            }
+            // authenticated Send indication over the wire
+            let dl = *rng.pick(&[0usize, 5, 100]);
+            let data = rng.bytes(dl);
+            env.rt.block_on(c.verif_send_indication(peer, &data)).unwrap();
+            if let Some(b) = env.sent() {
+                let tx: [u8; 12] = b[8..20].try_into().unwrap();
+                let case = case_req(run, "sendind", &tx, Some(&cr), Some(peer), 0, &data, &b);
+                if let Err(e) = verifies_under_own_realm(&b, &cr.pass) { run.fail(&format!("codec:turn:challenge-history:sendind:{step_class}:message-integrity-not-under-realm-in-message"), &case, &e); }
+            } else { run.count("udp_loopback_loss"); }
+            run.count(&format!("challenge_history_{step_class}"));
+        }
+    }
+}
+
 fn server_reply(tx: [u8; 12], method: Method, class: MessageClass, attrs: &[(AttrType, Vec<u8>)], relayed: Option<SocketAddr>, key: Option<Vec<u8>>) -> Vec<u8> {
     let mut m = Message::new();
     m.typ = MessageType::new(method, class);
@@ -315,7 +375,7 @@ fn allocate_dialogue(run: &mut Run, rng: &mut Rng, env: &Env) {
                 }
             }
             for step in 0..2 {
-                let Ok(Ok((n, _))) = tokio::time::timeout(Duration::from_secs(2), server.recv_from(&mut buf)).await else { break };
+                let Ok(Ok((n, _))) = tokio::time::timeout(Duration::from_millis(700), server.recv_from(&mut buf)).await else { break };
                 let req = buf[..n].to_vec();
                 let tx: [u8; 12] = req[8..20].try_into().unwrap();
                 let reply = if step == 0 {
@@ -331,6 +391,8 @@ fn allocate_dialogue(run: &mut Run, rng: &mut Rng, env: &Env) {
         };
         tokio::join!(client.verif_allocate(&user, &pass), srv)
     });
+    if forged_first { if let Ok((addr, _)) = &res { if *addr == bogus {
+        run.fail("codec:turn:allocate:response-with-foreign-transaction-id-honoured", "allocate-dialogue forged-first", &addr.to_string()); return; } } }
     if reqs.len() != 2 { run.count("allocate_dialogue_incomplete"); return; }
     let tx0: [u8; 12] = reqs[0][8..20].try_into().unwrap();
     let tx1: [u8; 12] = reqs[1][8..20].try_into().unwrap();
